@@ -83,11 +83,11 @@ func CheckC19(run *ev.Run) {
 	}
 	st := map[string]int{}
 	run.Rule = "specs seeded with 24 of 80 ambiguous scalars (YAML 1.1/1.2 booleans, nulls, ints in every base, floats, timestamps, base-60, indicators, blanks, multi-line, non-ASCII, `<<`, big numbers) as " +
-		"values (info, descriptions, enums, defaults, vendor extensions) and as keys (property names, status codes); expand, flatten, mixin with JSON and YAML input x --format json / yaml x compact / pretty, " +
+		"values (info, descriptions, enums, defaults, vendor extensions) and as keys (property names, status codes); expand, flatten, mixin with JSON and YAML input x --format json / yaml x compact / pretty, generate spec -i <seeded spec> written as .json / .yml / compact (multi-line text with trailing blanks, CRLF, tabs), " +
 		"init spec with --format json / yaml; the YAML output read with the toolkit's own reader (swag.YAMLDoc) must be JSON-equal to the JSON output of the same command, and the outputs for JSON and YAML " +
 		"input must be equal; every scalar the writer printed plain must read back as itself"
 	run.Trusted = append(run.Trusted, "the swagger CLI built from the working tree", "gopkg.in/yaml.v3 value encoder for producing the YAML rendering of an INPUT spec", "swag.YAMLDoc as the toolkit's reader", "reflect.DeepEqual on decoded JSON")
-	run.Assume = append(run.Assume, "yaml.v3's scanner and emitter are inverse on the content of a scalar for each style (not modelled)", "generate spec (second write path) is exercised by C07/C17 runs, here only its decision logic is proved")
+	run.Assume = append(run.Assume, "yaml.v3's scanner and emitter are inverse on the content of a scalar for each style (not modelled)", "generate spec (second write path) runs on one probe package merged with the seeded input spec")
 	bin, err := BuildSwagger()
 	if err != nil {
 		run.Broken("corr:C19:build", "the CLI does not build: "+err.Error(), nil)
@@ -229,6 +229,83 @@ func CheckC19(run *ev.Run) {
 					run.Deviation("renderings-differ:"+c.name, fmt.Sprintf("%s and %s give different documents (at %v)", refKey, k, clipList(paths, 5)), rp)
 				} else {
 					st["renderings-equal"]++
+				}
+			}
+		}
+		_ = os.RemoveAll(root)
+	}
+	// generate spec (the second YAML write path): a probe package scanned with -i <input spec seeded with ambiguous scalars>;
+	// the document written as .json and as .yml must be the same document
+	for k := 0; k < max(2, n/2); k++ {
+		spec, used := c19Spec(r)
+		var dm map[string]interface{}
+		_ = json.Unmarshal(spec, &dm)
+		// multi-line text with trailing blanks (markdown hard breaks), CRLF text, tabs
+		dm["info"].(map[string]interface{})["description"] = "first line  \nsecond line\t\nthird\r\nfourth \n\nlast"
+		dm["definitions"].(map[string]interface{})["legacy"] = map[string]interface{}{"type": "object", "description": "ends with blanks   \nand goes on\n"}
+		// whole numbers beyond int64 are written by this path as integers the toolkit's own reader refuses (known finding, exercised
+		// on its own below): kept out of the comparison runs so that they do not mask everything else
+		bigOnly := k == 0
+		if tp, ok := dm["definitions"].(map[string]interface{})["thing"].(map[string]interface{}); ok {
+			props := tp["properties"].(map[string]interface{})
+			if bigOnly {
+				for pk := range props {
+					if pk != "maxi64" && pk != "maxu64" && pk != "pow63" {
+						delete(props, pk)
+					}
+				}
+			} else {
+				delete(props, "maxi64")
+				delete(props, "maxu64")
+				delete(props, "pow63")
+			}
+		}
+		spec, _ = json.MarshalIndent(dm, "", " ")
+		root, err := ScratchRoot("c19g")
+		if err != nil {
+			continue
+		}
+		_ = InitModule(root, "x")
+		_ = os.MkdirAll(filepath.Join(root, "api"), 0o755)
+		_ = os.WriteFile(filepath.Join(root, "api", "doc.go"), []byte("// Package api is scanned together with an input spec.\n//\n// swagger:meta\npackage api\n\n// Extra is a scanned model.\n//\n// swagger:model Extra\ntype Extra struct {\n\t// the note\n\tNote string `json:\"note\"`\n}\n"), 0o644)
+		_ = os.WriteFile(filepath.Join(root, "in.json"), spec, 0o644)
+		outs := map[string]interface{}{}
+		bad := false
+		for _, variant := range [][]string{{"out.json"}, {"out.yml"}, {"outc.json", "--compact"}} {
+			args := append([]string{"generate", "spec", "-m", "-w", ".", "-i", "in.json", "-o", variant[0]}, variant[1:]...)
+			args = append(args, "./api")
+			res := Run(root, 180*time.Second, bin, args...)
+			run.Traces++
+			run.Case(fmt.Sprintf("generate spec %s|%x", variant[0], hashBytes(spec)))
+			if res.Code != 0 {
+				st["generate-spec-fails"]++
+				bad = true
+				continue
+			}
+			doc, lerr := loadAsJSON(filepath.Join(root, variant[0]))
+			if lerr != nil {
+				bad = true
+				k := "output-unreadable:generate spec"
+				if strings.Contains(lerr.Error(), "merge") {
+					k = "merge-key-string-unreadable"
+				} else if strings.Contains(lerr.Error(), "value out of range") {
+					k = "generate-spec-yaml-integer-beyond-int64-unreadable"
+				}
+				run.Deviation(k, fmt.Sprintf("the %s output of `swagger generate spec` cannot be read back: %s", variant[0], firstLine(lerr.Error())), map[string]interface{}{"input_spec": json.RawMessage(spec), "scalars": used})
+				continue
+			}
+			outs[variant[0]] = doc
+		}
+		if !bad {
+			for _, o := range []string{"out.yml", "outc.json"} {
+				if !reflect.DeepEqual(outs["out.json"], outs[o]) {
+					var paths []string
+					diffKeys(outs["out.json"], outs[o], "", &paths)
+					st["OUTPUTS-DIFFER:generate spec"]++
+					run.Deviation("renderings-differ:generate spec", fmt.Sprintf("generate spec writes different documents to out.json and %s (at %v)", o, clipList(paths, 5)),
+						map[string]interface{}{"input_spec": json.RawMessage(spec), "differing_paths": paths, "how": "package api with swagger:meta; swagger generate spec -m -w . -i in.json -o out.json|out.yml ./api"})
+				} else {
+					st["generate-spec-renderings-equal"]++
 				}
 			}
 		}
